@@ -640,6 +640,9 @@ def c15(tier):
                    'must not restart the close timeout), server actions {silent, Text}', K=K + 1, ping_rate=0, ping_timeout='none',
                    actions=['silent', 'text'], app_closes=2))
     specs.append(S('all-timers', W + 'all three timers symbolic, ping_rate=7, actions {silent, Pong, Text, Close}, application close()', K=K, ping_rate=7))
+    specs.append(S('timers-vs-eventless-reads', W + 'all three timers symbolic, ping_rate=1, server actions {silent, Pong, one EVENT-LESS byte of an unfinished '
+                   'fragment (the socket is readable, the wait does not time out, no message completes)}, application close(): every timer is still '
+                   'checked at every wake-up', K=K, ping_rate=1, actions=['silent', 'pong', 'drip']))
     specs.append(S('no-timeouts', 'ping_timeout=None and close_timeout=None: nothing may ever be forced', K=K, ping_rate=1,
                    ping_timeout='none', close_timeout='none', actions=['silent', 'close']))
     specs.append(S('close-timeout-zero', 'close_timeout=0 disables the close timeout', K=K, ping_rate=0, ping_timeout='none', close_timeout='zero',
